@@ -5,10 +5,12 @@ use kvarn::prelude::*;
 use std::sync::atomic::{AtomicUsize, Ordering};
 use std::sync::Arc;
 
-const ORIGINS: [&str; 19] = ["http://site.test", "https://site.test", "http://site.test:8080", "http://other.test", "https://other.test", "https://other.test:444", "http://SITE.test",
+const ORIGINS: [&str; 25] = ["http://site.test", "https://site.test", "http://site.test:8080", "http://other.test", "https://other.test", "https://other.test:444", "http://SITE.test",
     "null", "localhost", "", "http://other.test/path", "https://user@other.test", "http://oth\u{e9}r.test", "https://third.test",
     // an authority without a scheme is not the `https://…` origin a rule lists (nor the `http://…` one)
-    "other.test", "other.test:444", "third.test", "site.test", "//other.test"];
+    "other.test", "other.test:444", "third.test", "site.test", "//other.test",
+    // a scheme (the request's own, or another) with next to nothing behind it
+    "http:", "http:/", "http:a", "https:", "http://", "http:/site.test"];
 const PATHS: [&str; 5] = ["/page", "/api/x", "/api/deep/y", "/", "/index.html"];
 
 /// rule spec: (pattern, allow_all, origins, methods or None=all, headers, max age secs)
